@@ -261,7 +261,7 @@ func cmpRRs(sec string, want, got []dns.RR) *dnsx.Diff {
 // names are written without trailing dot).
 func cmpMsg(want, got *dns.Message) *dnsx.Diff {
 	type hdr struct {
-		ID                            uint16
+		ID                                uint16
 		QR, OpCode, AA, TC, RD, RA, RCode uint8
 	}
 	wh := hdr{want.ID, want.QR, want.OpCode, want.AA, want.TC, want.RD, want.RA, want.RCode}
@@ -409,6 +409,41 @@ func genEncode(i int, rng *mrand.Rand) encCase {
 	}
 	c.spec = m
 	return c
+}
+
+// hasHighPointer reports whether an owner name of the message starts with or
+// runs into a compression pointer to an offset >= 8192.
+func hasHighPointer(pkt []byte, w *dnsx.RawMsg) bool {
+	off := 12
+	scan := func(at int) (next int, high bool) {
+		for at < len(pkt) {
+			c := int(pkt[at])
+			if c&0xc0 == 0xc0 {
+				return at + 2, at+1 < len(pkt) && (c&0x3f)<<8|int(pkt[at+1]) >= 8192
+			}
+			if c == 0 {
+				return at + 1, false
+			}
+			at += 1 + c
+		}
+		return at, false
+	}
+	for range w.Question {
+		n, h := scan(off)
+		if h {
+			return true
+		}
+		off = n + 4
+	}
+	for _, sec := range w.Sections {
+		for _, rr := range sec {
+			if _, h := scan(off); h {
+				return true
+			}
+			off = rr.RDOff + rr.RDLen
+		}
+	}
+	return false
 }
 
 func hasRootTarget(rr dnsx.RR) bool {
@@ -617,6 +652,24 @@ func TestCheck(t *testing.T) {
 		for j, n := 0, sectionSize(rng)+1; j < n; j++ {
 			spec.Answer = append(spec.Answer, mk())
 		}
+		big := i%25 == 7
+		if big {
+			// a message of 8..16 KiB whose later names are first written beyond offset 8192,
+			// so that compression pointers use all 14 offset bits
+			size := 0
+			for _, rr := range spec.Answer {
+				size += len(rr.Wire())
+			}
+			for target := 8300 + rng.IntN(7000); size < target; {
+				rr := mk()
+				size += len(rr.Wire())
+				spec.Answer = append(spec.Answer, rr)
+			}
+			g.Refresh()
+			for j := 0; j < 12; j++ {
+				spec.Authority = append(spec.Authority, mk())
+			}
+		}
 		for j, n := 0, sectionSize(rng); j < n; j++ {
 			spec.Authority = append(spec.Authority, mk())
 		}
@@ -643,6 +696,16 @@ func TestCheck(t *testing.T) {
 			return
 		}
 		compressed := len(pkt) < len(spec.Wire())
+		highPtr := false
+		for k := 12; compress && k+1 < len(pkt) && !highPtr; k++ {
+			// (a scan for the byte pattern is enough for a coverage counter: it is confirmed by the name walk below)
+			if pkt[k]&0xe0 == 0xe0 {
+				if w, err := dnsx.Walk(pkt); err == nil {
+					highPtr = hasHighPointer(pkt, w)
+				}
+				break
+			}
+		}
 		payload := newCase(spec, map[string]any{"packet": pkt, "compress": compress})
 		r.Guard("decode", i, "decode", payload, func() {
 			dec, err := dns.DecodeMessage(pkt)
@@ -650,6 +713,9 @@ func TestCheck(t *testing.T) {
 			r.Count("decode_messages", 1)
 			if compressed {
 				r.Count("decode_messages_with_pointers", 1)
+			}
+			if highPtr {
+				r.Count("decode_messages_with_pointers_beyond_8192", 1)
 			}
 			if err != nil {
 				r.Violate("decode", i, "decode:error", fmt.Sprintf("DecodeMessage rejects a packet built by dnsmessage: %v", err), payload)
@@ -674,6 +740,7 @@ func TestCheck(t *testing.T) {
 	})
 	r.Floor("decode_messages", int64(nDec))
 	r.Floor("decode_messages_with_pointers", int64(nDec)/2)
+	r.Floor("decode_messages_with_pointers_beyond_8192", int64(nDec)/100)
 	for _, t := range dnsx.DecoderTypes {
 		r.Floor("decode_rr_"+dnsx.TypeName(t), 200)
 	}
